@@ -39,16 +39,25 @@ class RawMemory(pycore.HashMemory):
     def __init__(self, *a: Any, **k: Any) -> None:
         super().__init__(*a, **k)
         self.outside: List[Tuple[str, int]] = []
+        # data-access hook (None: plain memory): called with the canonical address of every *data* access (reads while
+        # the read log is on, all writes) after it has been logged -- what else the host does inside a memory callback
+        # is a generated dimension (execute(): case['coexec'])
+        self.on_access: Any = None
 
     def read_byte(self, address: int) -> int:
         if self.log_reads and not pycore.is_canonical(address):
             self.outside.append(("read", int(address)))
-        return super().read_byte(address)
+        v = super().read_byte(address)
+        if self.on_access is not None and self.log_reads:
+            self.on_access(pycore.canon(address))
+        return v
 
     def write_byte(self, address: int, value: int) -> None:
         if not pycore.is_canonical(address):
             self.outside.append(("write", int(address)))
         super().write_byte(address, value)
+        if self.on_access is not None:
+            self.on_access(pycore.canon(address))
 
 
 def _make_emulator(case: Dict[str, Any]) -> Tuple[Any, RawMemory]:
@@ -80,7 +89,13 @@ def execute(case: Dict[str, Any]) -> Dict[str, Any]:
     emu.decode_instruction = dec  # type: ignore[method-assign]
     if case.get("prior"):
         prior_note = run_prior(emu, mem, case)
+    co = install_coexec(mem, case) if case.get("coexec") else None
     out = pycore.step(emu, mem, want_reads=True)
+    mem.on_access = None
+    if co is not None:
+        out["coexec"] = co["state"]
+        if co.get("raised"):
+            out["coexec_raised"] = co["raised"]
     if prior_note:
         out["prior_raised"] = prior_note
     reads = list(out.get("reads", []))
@@ -90,6 +105,37 @@ def execute(case: Dict[str, Any]) -> Dict[str, Any]:
     out["reads"] = reads
     out["outside"] = [[k, a] for k, a in mem.outside[:16]]
     return out
+
+
+def install_coexec(mem: RawMemory, case: Dict[str, Any]) -> Dict[str, Any]:
+    """What the host does inside the memory callbacks of the instruction under test (case['coexec'], see
+    c03_gen.draw_coexec): a SECOND Emulator -- its own Registers, its own hash memory, its own generated instruction and
+    machine state (a co-simulated peripheral core behind a mailbox address) -- executes one instruction, synchronously,
+    inside the k-th data access (read or write callback) of the instruction under test.  Accesses inside the code
+    window (the opcode re-read that precedes the lift) do not count.  The two machines share nothing the property
+    quantifies over, so the locations the first one touches are still exactly the denoted ones.  The nested instruction's
+    exceptions are its own business.  state: 'not-reached' (the instruction made fewer data accesses) / 'fired'."""
+    co = case["coexec"]
+    st: Dict[str, Any] = {"state": "not-reached", "n": 0}
+    emu2, _mem2 = _make_emulator(co["case"])
+    pc = pycore.canon(case["regs"]["PC"])
+    pc2 = int(co["case"]["regs"]["PC"]) & RS.M20
+    at = int(co.get("at", 0))
+
+    def on_access(addr: int) -> None:
+        if st["state"] != "not-reached" or pc <= addr < pc + CODE_WINDOW:
+            return
+        if st["n"] < at:
+            st["n"] += 1
+            return
+        st["state"] = "fired"
+        try:
+            emu2.execute_instruction(pc2)
+        except BaseException as exc:  # noqa: BLE001 - the other machine's problem
+            st["raised"] = type(exc).__name__
+
+    mem.on_access = on_access
+    return st
 
 
 def run_prior(emu: Any, mem: RawMemory, case: Dict[str, Any]) -> Optional[str]:
@@ -108,6 +154,8 @@ def run_prior(emu: Any, mem: RawMemory, case: Dict[str, Any]) -> Optional[str]:
             mem.over[(addr + i) & RS.M20] = b
     emu.regs.set(RegisterName.I, 1 + (int(case["regs"].get("I", 0)) % 24))     # keep a counted prior short
     note: Optional[str] = None
+    if p.get("sets_power"):
+        emu.state.halted = False       # the core is running when it meets the HALT / OFF that stops it
     try:
         if p.get("via") == "decode":
             emu.decode_instruction(addr)
@@ -122,7 +170,13 @@ def run_prior(emu: Any, mem: RawMemory, case: Dict[str, Any]) -> Optional[str]:
     regs = {f"TEMP{i}": 0 for i in range(GN.NUM_TEMPS)}
     regs.update(case.get("regs", {}))
     pycore.set_regs(emu, regs)
-    emu.state.halted = case.get("power", "running") != "running"
+    if p.get("sets_power"):
+        # the power state of the case is the one this operation (HALT / OFF executed) left behind on the emulator: it is
+        # NOT written from outside.  A prior that did not get that far is reported, not papered over.
+        if emu.state.halted != (case.get("power", "running") != "running"):
+            note = (note or "") + "+power-not-set"
+    else:
+        emu.state.halted = case.get("power", "running") != "running"
     return note
 
 
@@ -377,6 +431,8 @@ TAG_TOPBIT = " [I >= 8000h]"
 TAG_PRIOR = " [depends on the previous operation on the same emulator]"
 TAG_PAGE = " [encoding straddles a 64 KiB page boundary]"
 TAG_PAGE_NEXT = " [a 64 KiB page boundary lies right behind the instruction]"
+TAG_POWER = " [core halted at instruction entry: HALT/OFF executed earlier, not woken]"
+TAG_COEXEC = " [another emulator executed an instruction inside a memory callback of this one]"
 RELOCATE_BY = 0x400
 
 
@@ -479,10 +535,31 @@ def judge(case: Dict[str, Any], want_obs: bool = False, _nofollow: bool = False)
     if want_obs:
         j.obs = obs
     j.labels += prim.labels
+    if case.get("coexec"):
+        j.labels.append("coexec:" + str(obs.get("coexec", "not-reached")))
+        if obs.get("coexec") == "fired":
+            j.labels.append("coexec-nested:" + ("raised" if obs.get("coexec_raised") else "completed"))
+    if case.get("prior", {}).get("sets_power") and "power-not-set" in str(obs.get("prior_raised", "")):
+        j.labels.append("power:prior-did-not-halt")
     j.nontrivial = list(prim.nontrivial)
     if "err" in obs:
         j.val.append(("exec-error", "python exception: " + obs["err"].split(":")[0], obs["err"]))
         j.loc.append(("exec-error", "python exception: " + obs["err"].split(":")[0], obs["err"]))
+        if not _nofollow:
+            # round-5 input tags (only these two: the older dimensions keep their untagged exec-error classes)
+            tag = ""
+            for present, c2, t in (
+                    (case.get("power", "running") != "running",
+                     dict({k: v for k, v in case.items() if not (k == "prior" and v.get("sets_power"))}, power="running"),
+                     TAG_POWER),
+                    (bool(case.get("coexec")), {k: v for k, v in case.items() if k != "coexec"}, TAG_COEXEC)):
+                if present:
+                    j2 = judge(c2, _nofollow=True)
+                    if j2.status == "ok" and ("exec-error", j.loc[-1][1]) not in {(a, b) for a, b, _ in j2.loc}:
+                        tag += t
+            if tag:
+                j.loc = [(a, b + tag, c) for a, b, c in j.loc]
+                j.val = [(a, b + tag, c) for a, b, c in j.val]
         return j
     if obs.get("len") != length:
         # the emulator executed an instruction of another length than the one the bytes at PC disassemble to: values
@@ -524,6 +601,12 @@ def judge(case: Dict[str, Any], want_obs: bool = False, _nofollow: bool = False)
             compare(without_temps(case), TAG_TEMPS)
         if case.get("prior"):
             compare({k: v for k, v in case.items() if k != "prior"}, TAG_PRIOR)
+        if case.get("power", "running") != "running":
+            c2 = {k: v for k, v in case.items() if not (k == "prior" and v.get("sets_power"))}
+            c2["power"] = "running"
+            compare(c2, TAG_POWER)
+        if case.get("coexec"):
+            compare({k: v for k, v in case.items() if k != "coexec"}, TAG_COEXEC)
         if (pc & 0xFFFF) + CODE_WINDOW > 0x10000 and pc >= RELOCATE_BY:
             compare(relocated(case), TAG_PAGE if (pc & 0xFFFF) + length > 0x10000 else TAG_PAGE_NEXT)
         j.loc = [(sub, sym + t, det) for (sub, sym, det), t in zip(j.loc, loc_tags)]
@@ -648,6 +731,7 @@ def flip_checks(case: Dict[str, Any], j: Judgement, st: S.Stream) -> List[Tuple[
 
 
 BIGCOUNT_ATTEMPTS = 8
+PAIR_FOCI = ("pagecross", "halted", "coexec")     # grids that cycle over all (prefix, opcode) pairs
 WAIT_OPCODE = 0xEF
 
 
@@ -668,12 +752,12 @@ def explore_shard(task: Tuple[Any, ...]) -> Report:
         seed = mix32(seed, 0xF0C5, len(focus))
     rep = Report()
     ops_list = GN.opcodes()
-    heads = GN.focus_heads("blockwrap" if focus in ("bigcount", "overptr") else focus) if focus and focus != "pagecross" else []
+    heads = GN.focus_heads("blockwrap" if focus in ("bigcount", "overptr") else focus) if focus and focus not in PAIR_FOCI else []
     if focus == "bigcount":
         heads = heads + [(WAIT_OPCODE, 0x00)]      # the third user of the counted loop; a prefixed WAIT runs its IL loop
     npairs = len(ops_list) * len(G.PRES)
-    if focus == "pagecross":
-        total = npairs * count                             # `count` = split positions tried per (prefix, opcode)
+    if focus in PAIR_FOCI:
+        total = npairs * count                             # `count` = split positions / cases per (prefix, opcode)
         count = (total - shard + nshards - 1) // nshards if total > shard else 0
     elif focus and focus != "bigcount":
         total = len(heads) * len(G.PRES) * count          # for a focus grid `count` = repetitions per (prefix, head)
@@ -691,7 +775,7 @@ def explore_shard(task: Tuple[Any, ...]) -> Report:
             pair = (mix32(seed, 0xB16) + idx * stride) % nfp
             pre = G.PRES[pair % len(G.PRES)]
             op, b2 = heads[pair // len(G.PRES)]
-        elif focus == "pagecross":
+        elif focus in PAIR_FOCI:
             pair = idx % npairs
             pre = G.PRES[pair // len(ops_list)]
             op = ops_list[pair % len(ops_list)]
@@ -732,7 +816,7 @@ def _gcd(a: int, b: int) -> int:
 
 def _draw_and_judge(st: S.Stream, pre: Optional[int], op: int, b2: Optional[int], focus: Optional[str], imax: int,
                     ops_list: List[int], split: int = 0) -> Optional[Tuple[Dict[str, Any], List[str], str, Judgement]]:
-    if focus and focus != "pagecross":
+    if focus and focus not in PAIR_FOCI:
         code = GN.draw_encoding(st, pre, op, b2=b2, hi_bias=(focus in ("blockwrap", "overptr")), near_ptr=(focus == "overptr"))
     else:
         code = GN.draw_encoding(st, pre, op)
@@ -760,7 +844,8 @@ def _draw_and_judge(st: S.Stream, pre: Optional[int], op: int, b2: Optional[int]
         place = GN.page_cross_pc(st, len(code), 1 + split % max(1, len(code) - 1))
     elif st.chance(1, 16):
         place = GN.page_cross_pc(st, len(code))
-    mc = GN.make_case(st, code, imax if big else min(imax, 24), pc=(place[0] if place else None), follow=follow, focus=focus)
+    mc = GN.make_case(st, code, imax if big else min(imax, 24), pc=(place[0] if place else None), follow=follow,
+                      focus=(None if focus in ("halted", "coexec") else focus))
     if mc is None:
         return None
     case, labels, mn, ops = mc
@@ -772,6 +857,23 @@ def _draw_and_judge(st: S.Stream, pre: Optional[int], op: int, b2: Optional[int]
     prior, plabels = GN.draw_prior(st, ops_list, case["regs"]["PC"])
     if prior is not None:
         case["prior"] = prior
+    if focus == "halted":
+        # the power state at instruction entry is a generated dimension of the machine state: the core is stopped
+        # because a HALT / OFF was executed earlier on this emulator (and nothing woke it), or because the state was
+        # put there from outside (a snapshot taken while halted)
+        pw, pprior, pl = GN.draw_power(st, case["regs"]["PC"])
+        case["power"] = pw
+        if pprior is not None:
+            case["prior"] = pprior
+            plabels = [f"prior:{pprior['kind']}/{pprior['via']}", "prior-at:" + pl[-1].split(":", 1)[1]]
+            pl = pl[:-1]
+        labels += pl
+    elif focus == "coexec":
+        # what the host does inside the memory callbacks is a generated dimension: a second emulator is stepped there
+        co, cl = GN.draw_coexec(st, ops_list, case["regs"]["PC"])
+        if co is not None:
+            case["coexec"] = co
+        labels += cl
     labels += plabels
     return case, labels, mn, judge(case)
 
@@ -819,7 +921,7 @@ def shrink_case(prop: str, v: Violation) -> Violation:
     """Field-wise delta debugging: simplify registers / drop memory overrides while the fingerprint persists."""
     import time as _t
     t0 = _t.time()
-    case = {k: v.case[k] for k in ("regs", "power", "seed", "mem", "steps", "prior") if k in v.case}
+    case = {k: v.case[k] for k in ("regs", "power", "seed", "mem", "steps", "prior", "coexec") if k in v.case}
     key = v.key()
 
     def same(c: Dict[str, Any]) -> Optional[Violation]:
@@ -840,6 +942,11 @@ def shrink_case(prop: str, v: Violation) -> Violation:
     pc = case["regs"]["PC"]
     if case.get("prior"):
         c2 = {k: x for k, x in case.items() if k != "prior"}
+        b = same(c2)
+        if b is not None:
+            case, best = c2, b
+    if case.get("coexec"):
+        c2 = {k: x for k, x in case.items() if k != "coexec"}
         b = same(c2)
         if b is not None:
             case, best = c2, b
